@@ -340,6 +340,71 @@ func entityMapFamily() *core.Family {
 	}
 }
 
+// sizes: entity maps of n entities, entities with n parents / n attributes / n tags, for n
+// across the usual growth thresholds; ids shared across types (A::"e7", B::"e7") and ids
+// that sort differently as text and as numbers (e2 < e10 numerically, "e10" < "e2" as text).
+func sizedEntities() *core.Family {
+	sizes := []int{0, 1, 2, 7, 8, 9, 10, 11, 16, 17, 31, 32, 33, 63, 64, 65, 100, 128, 129}
+	return &core.Family{
+		Name: "entity-sizes",
+		Desc: fmt.Sprintf("entity maps of n entities (ids e0..e(n-1) under two types) and entities with n parents, n attributes and n tags, for n in %v: JSON round trip equal, encoding byte-stable, owned by the caller, decoding into a used map entry", sizes),
+		N:    int64(len(sizes)),
+		Run: func(t *core.T, i int64) {
+			n := sizes[i]
+			em := types.EntityMap{}
+			var parents []types.EntityUID
+			attrs, tags := types.RecordMap{}, types.RecordMap{}
+			for k := 0; k < n; k++ {
+				parents = append(parents, types.NewEntityUID([]types.EntityType{"G", "H"}[k%2], types.String(fmt.Sprintf("p%d", k/2))))
+				attrs[types.String(fmt.Sprintf("a%d", k))] = types.Long(int64(k))
+				tags[types.String(fmt.Sprintf("t%d", k))] = types.NewSet(types.Long(int64(k)), types.String("x"))
+			}
+			big := types.Entity{UID: types.NewEntityUID("A", "big"), Parents: types.NewEntityUIDSet(parents...), Attributes: types.NewRecord(attrs), Tags: types.NewRecord(tags)}
+			em[big.UID] = big
+			for k := 0; k < n; k++ {
+				u := types.NewEntityUID([]types.EntityType{"A", "B"}[k%2], types.String(fmt.Sprintf("e%d", k/2)))
+				em[u] = types.Entity{UID: u, Parents: types.NewEntityUIDSet(big.UID), Attributes: types.NewRecord(types.RecordMap{"k": types.Long(int64(k))})}
+			}
+			js, err := json.Marshal(em)
+			if err != nil {
+				t.Fail("entitymap-marshal-error:sizes", fmt.Sprint(n), "encodes", err.Error())
+				return
+			}
+			keep := string(js)
+			var back types.EntityMap
+			if err := json.Unmarshal(js, &back); err != nil {
+				t.Fail("entitymap-json-does-not-decode:sizes", keep, "decodes", err.Error())
+				return
+			}
+			if len(back) != len(em) {
+				t.Fail("entitymap-json-roundtrip-size:sizes", fmt.Sprint(n), fmt.Sprint(len(em)), fmt.Sprint(len(back)))
+			}
+			for id, e := range em {
+				if b, ok := back[id]; !ok || !b.Equal(e) || b.Parents.Len() != e.Parents.Len() || b.Attributes.Len() != e.Attributes.Len() || b.Tags.Len() != e.Tags.Len() {
+					t.Fail("entitymap-json-roundtrip:sizes", fmt.Sprintf("n=%d entity %v", n, id), fmt.Sprint(e), fmt.Sprint(b, ok))
+					break
+				}
+			}
+			for k := range js {
+				js[k] = '#'
+			}
+			js2, _ := json.Marshal(back)
+			js3, _ := json.Marshal(em)
+			if string(js2) != keep || string(js3) != keep {
+				t.Fail("entitymap-json-not-stable:sizes", fmt.Sprint(n), keep, string(js2))
+			}
+			one, _ := json.Marshal(big)
+			var bigBack types.Entity
+			if err := json.Unmarshal(one, &bigBack); err != nil || !bigBack.Equal(big) {
+				t.Fail("entity-json-roundtrip:sizes", fmt.Sprint(n), "equal", fmt.Sprint(err))
+			}
+			t.Nontrivial()
+			t.AddStates(1)
+			t.Sample(fmt.Sprintf("n=%d", n))
+		},
+	}
+}
+
 func requestFamily() *core.Family {
 	pos := []types.Position{{}, {Filename: "f \"x\".cedar", Offset: 12, Line: 3, Column: 4}}
 	return &core.Family{
@@ -798,7 +863,7 @@ func Check() *core.Check {
 		Assumptions: []string{"strings that are not valid UTF-8 are outside the domain (JSON cannot carry them)", "datetimes in the first representable day are excluded here (recorded under C12)"},
 		Families: func(tier string) []*core.Family {
 			initSchema()
-			fams := []*core.Family{valueFamily(), scalarGrids(), entityFamily(), entityMapFamily(), requestFamily(), typedSpellings(), spellingFamily(), UsedReceivers(), escapedKeys()}
+			fams := []*core.Family{valueFamily(), scalarGrids(), entityFamily(), entityMapFamily(), sizedEntities(), requestFamily(), typedSpellings(), spellingFamily(), UsedReceivers(), escapedKeys()}
 			if tier == "thorough" {
 				return append(fams, scalarFamily(0, 0x10FFFF))
 			}
